@@ -360,6 +360,16 @@ def tr_expr(cx, env, e):
         b, tb, pb = tr_expr(cx, env, e.values[1])
         if ta == tb == 'tup' and not pa and not pb:
             return '(if %s then %s else %s)' % (as_bool(c, tc), a, b), 'tup', pc
+    if (isinstance(e, ast.BoolOp) and isinstance(e.op, ast.Or) and len(e.values) == 2 and isinstance(e.values[0], ast.BoolOp)
+            and isinstance(e.values[0].op, ast.And) and len(e.values[0].values) == 2
+            and isinstance(e.values[0].values[1], ast.Constant) and type(e.values[0].values[1].value) is int
+            and e.values[0].values[1].value != 0 and cx.spec.get('andor_conditional')):
+        # `x and 1 or 0`: a non-zero (truthy) integer literal in the middle - the same old spelling over ints
+        c, tc, pc = tr_expr(cx, env, e.values[0].values[0])
+        a, ta, pa = tr_expr(cx, env, e.values[0].values[1])
+        b, tb, pb = tr_expr(cx, env, e.values[1])
+        if ta == tb == 'int' and not pa and not pb:
+            return '(if %s then %s else %s)' % (as_bool(c, tc), a, b), 'int', pc
     if isinstance(e, ast.BoolOp):
         parts = [tr_expr(cx, env, v) for v in e.values]
         pre = sum((p[2] for p in parts), [])
@@ -1249,6 +1259,15 @@ def slice_body(fn, spec):
         if idx is None:
             raise Unsupported('marker statement %r not found' % spec['before'])
         body = body[:idx]
+    if 'return_arg' in spec:
+        # the function ends by handing a computed value on to another one (`return Base._createComponent(self, asn1Spec,
+        # tagSet, <value>, **options)`): the kernel is that value - the argument at the declared position of the declared callee
+        last = body[-1] if body else None
+        callee, pos = spec['return_arg']
+        if not (isinstance(last, ast.Return) and isinstance(last.value, ast.Call) and dotted(last.value.func) == callee
+                and len(last.value.args) > pos):
+            raise Unsupported('the function does not end in `return %s(...)` with %d positional arguments' % (callee, pos + 1))
+        body[-1] = ast.Return(value=last.value.args[pos])
     if 'result' in spec:
         body.append(ast.Return(value=ast.parse(spec['result'], mode='eval').body))
     return body
